@@ -29,6 +29,10 @@ package main
 // `value` tag - value part and arguments - whose placeholders nest in front of a comma of the outer block
 // (placeholder-tagtext).
 //
+// As written (scenario `W …`, sub_placeholder_written.go): a field tagged with the text T and a field tagged with the text T becomes
+// when every placeholder is replaced by hand are started on real Apps under the same configuration and must end the same way
+// (placeholder-as-written); replacement texts carry `#{…}` expressions.
+//
 // Histories (scenario `H …`, see the section "histories" below): tags are resolved, paths of the configuration are changed
 // with Configure.Set, the same tags are resolved again on fresh properties; the second resolution is judged like a first
 // one under the CURRENT configuration (placeholder-set-stale / placeholder-set-current).
@@ -530,6 +534,12 @@ type phEv struct {
 	steps          int      // placeholders substituted so far (= look-ups the library needs)
 	chain          []string // keys whose value is being substituted right now
 	litBraces      bool     // the literals are the generator's own and may carry the braces of an expression wrapper `#{…}`
+	// eighth round (scenario `W`, see sub_placeholder_written.go): a replacement text may carry expression wrappers `#{ … }`
+	// (whose inside holds brace-free text and placeholders) - but only where the placeholder stands OUTSIDE every other
+	// placeholder's key and default (depth 0): there the wrapper's braces cannot hide an enclosing placeholder from the scanner
+	exprOK   bool
+	depth    int  // how many placeholders' keys / defaults enclose what is being evaluated
+	exprRepl bool // a replacement carried an expression wrapper
 }
 
 const phMaxSteps = 300 // far below the library's bound of 1000 replacements: beyond it the oracle claims nothing
@@ -547,16 +557,23 @@ func (e *phEv) eval(ns []*phNode) (string, bool) {
 			sb.WriteString(n.lit)
 			continue
 		}
+		e.depth++
 		content, ok := e.eval(n.key)
+		e.depth--
 		if !ok {
 			return "", false
 		}
 		if n.hasD {
+			e.depth++
 			d, ok := e.eval(n.def)
+			e.depth--
 			if !ok {
 				return "", false
 			}
 			content += ":" + d
+		}
+		if e.exprOK && strings.ContainsAny(content, "{}") {
+			return "", false // the scanner would not see this placeholder (cannot happen without exprOK: contents are brace-free there)
 		}
 		if e.steps++; e.steps > phMaxSteps {
 			return "", false
@@ -604,6 +621,11 @@ func (e *phEv) eval(ns []*phNode) (string, bool) {
 		if strings.ContainsAny(r, "{}") {
 			// the replacement text carries placeholders itself: the tag goes on as if it had been written with that text
 			sub, ok := phParse(r)
+			if !ok && e.exprOK && e.depth == 0 {
+				if sub, ok = phParseX(r); ok {
+					e.exprRepl = true
+				}
+			}
 			if !ok {
 				return "", false
 			}
@@ -731,6 +753,10 @@ func phReplay(scn string, w *hx.Writer) {
 		phTextReplay(f, w)
 		return
 	}
+	if len(f) > 0 && f[0] == "W" {
+		phWrittenReplay(f, w)
+		return
+	}
 	if len(f) < 2 {
 		return
 	}
@@ -773,6 +799,7 @@ func phCfgOf(kv ...any) *cval {
 }
 
 func phCorpus(w *hx.Writer) {
+	defer phWrittenCorpus(w) // (eighth round) runs after every other corpus case
 	defer phTextCorpus(w)
 	defer phHistCorpus(w)
 	list := &cval{kind: 'l', xs: []*cval{cNum("1"), cStr("x"), {kind: 'b', b: true}}}
@@ -1453,6 +1480,9 @@ func phGen(rng *hx.Rng, n int, tier string, w *hx.Writer) {
 	phGenHist(rng.Fork(), (n+11)/12, w)
 	// … and (seventh round) tags given as TEXT with arguments, whose placeholders nest in front of a comma of the outer block
 	phGenNested(rng.Fork(), (n+11)/12, w)
+	// … and (eighth round) tags whose replacement texts carry expressions, each started on a real App as written and as it
+	// reads with every placeholder replaced by hand (scenario `W`, sub_placeholder_written.go)
+	phGenWritten(rng.Fork(), (n+11)/12, w)
 }
 
 // ---------------------------------------------------------------- histories
